@@ -86,7 +86,7 @@ type deployment struct {
 func TestC11(t *testing.T) {
 	world.Quiet()
 	run := rep.New("C11", "exploration",
-		"routing prefixes, owning types and OpenAI compatibility are read from the shipped profiles with the server's own profile factory; for every prefix x deployments (every single endpoint type incl. auto, seeded pairs / triples / quadruples of types) x request paths (chat, completions, the provider's native paths, an unknown path), typed scripted backends that stamp their type and list type-tagged model names; oracle: the request is served by a backend of an allowed type, or the client gets an error status and no backend of another type saw it; model listings under the prefix name only models of allowed types on healthy endpoints. distinct = distinct (deployment, prefix, path)")
+		"routing prefixes, owning types and OpenAI compatibility are read from the shipped profiles with the server's own profile factory; for every prefix x deployments (every single endpoint type incl. auto, seeded pairs / triples / quadruples of types) x request paths (chat, completions, the provider's native paths, an unknown path), typed scripted backends that stamp their type and list type-tagged model names; plus, per prefix, a case in which the provider's own endpoints are listed healthy but refuse / reset connections while other kinds are fine; oracle: the request is served by a backend of an allowed type, or the client gets an error status and no backend of another type saw it; model listings under the prefix name only models of allowed types on healthy endpoints. distinct = distinct (deployment, prefix, path)")
 	provs, types, oc, err := readProfiles()
 	if err != nil {
 		t.Fatalf("profiles: %v", err)
@@ -135,6 +135,7 @@ func TestC11(t *testing.T) {
 	run.Require("served_by_allowed", 50)
 	run.Require("rejected_without_foreign_contact", 50)
 	run.Require("listings_judged", int64(len(deps)))
+	run.Require("dead_provider_cases", 100)
 	run.Finish(t)
 }
 
@@ -245,6 +246,62 @@ func runDeployment(run *rep.Run, d deployment, provs []provider, oc map[string]b
 			if !anyAllowed && ok2xx {
 				run.Violation("C11/success-without-provider-endpoint", fmt.Sprintf("no endpoint of provider %s is deployed (%v) yet the request succeeded", p.Owner, d.Types), wit)
 			}
+		}
+		// the provider's own endpoints are listed healthy but dead (refuse or reset
+		// connections, as between two health checks) while endpoints of other kinds are
+		// fine: the request must fail, not spill over to another kind
+		anyForeign := false
+		for _, tp := range d.Types {
+			if !allowed(p, tp, oc) {
+				anyForeign = true
+			}
+		}
+		if anyAllowed && anyForeign {
+			how := []string{"refuse", "reset"}[(id+pi)%2]
+			for i, tp := range d.Types {
+				if allowed(p, tp, oc) {
+					if how == "refuse" {
+						backs[i].Refuse(true)
+					} else {
+						backs[i].SetProxy(func(*backend.Record) *backend.Resp { return &backend.Resp{Fault: "reset_before_headers"} })
+					}
+				}
+				backs[i].ResetRecords()
+			}
+			nonce := fmt.Sprintf("d%dp%ddead", id, pi)
+			body := []byte(fmt.Sprintf(`{"prompt":"%s","messages":[{"role":"user","content":"%s"}]}`, nonce, nonce))
+			req, _ := http.NewRequest("POST", w.Base+"/olla/"+p.Prefix+"/v1/chat/completions?n="+nonce, bytes.NewReader(body))
+			req.Header.Set("Content-Type", "application/json")
+			res := client.Do(hc, req)
+			run.Eval(depKey + "/" + p.Prefix + "/dead-" + how)
+			run.Count("dead_provider_cases", 1)
+			var foreign []string
+			for i, b := range backs {
+				b.WaitIdle(time.Second)
+				for _, r := range b.ProxyRecords() {
+					if strings.Contains(r.RawQuery, "n="+nonce) && !allowed(p, d.Types[i], oc) {
+						foreign = append(foreign, d.Types[i])
+					}
+				}
+			}
+			wit := map[string]any{"deployment": d, "prefix": p.Prefix, "owner": p.Owner, "provider_endpoints": how, "client_status": res.Status, "client_body": res.BodyHead, "foreign_types_contacted": foreign}
+			if len(foreign) > 0 {
+				run.Violation("C11/served-by-foreign-type/provider-endpoints-dead", fmt.Sprintf("the %s endpoints %s connections; POST /olla/%s/v1/chat/completions was sent on to %v", p.Owner, how, p.Prefix, foreign), wit)
+			} else if res.Status >= 200 && res.Status < 300 {
+				run.Violation("C11/2xx-although-provider-endpoints-dead", "every endpoint of the provider is dead, yet the client got a 2xx", wit)
+			}
+			for i, b := range backs {
+				b.Refuse(false)
+				b.SetProxy(llmresp.Handler(b.Name))
+				_ = i
+			}
+			w.Health().VerifShift(40 * time.Second)
+			w.ForceHealth()
+			var names []string
+			for _, b := range backs {
+				names = append(names, b.Name)
+			}
+			w.CloseEngineBreakers(names...)
 		}
 		// model listing under the prefix (OpenAI format where registered)
 		resp, err := hc.Get(w.Base + "/olla/" + p.Prefix + "/v1/models")
